@@ -23,6 +23,47 @@ use serde::{
 };
 use std::{borrow::Borrow, hash::Hash};
 
+/// Verification hooks: named yield/trace points that external runtime monitors
+/// can observe and schedule. Only compiled with the `verif` cargo feature; the
+/// [`verif_point!`] macro expands to nothing otherwise.
+#[cfg(feature = "verif")]
+pub mod verif {
+    use std::sync::atomic::{AtomicPtr, Ordering};
+
+    static HOOK: AtomicPtr<()> = AtomicPtr::new(std::ptr::null_mut());
+
+    /// Installs (or clears) the process-wide callback invoked at every point.
+    pub fn set_hook(f: Option<fn(&'static str)>) {
+        let p = match f {
+            Some(f) => f as *const () as *mut (),
+            None => std::ptr::null_mut(),
+        };
+        HOOK.store(p, Ordering::SeqCst);
+    }
+
+    /// Invoked by [`verif_point!`](crate::verif_point).
+    #[inline]
+    pub fn point(tag: &'static str) {
+        let p = HOOK.load(Ordering::Acquire);
+        if !p.is_null() {
+            // SAFETY: the only non-null values ever stored are `fn(&'static str)`
+            // pointers converted in `set_hook`.
+            let f: fn(&'static str) = unsafe { std::mem::transmute(p) };
+            f(tag);
+        }
+    }
+}
+
+/// Marks a verification yield point. A no-op unless the *calling* crate is
+/// built with its `verif` feature (which must enable `anda_db_utils/verif`).
+#[macro_export]
+macro_rules! verif_point {
+    ($tag:expr) => {
+        #[cfg(feature = "verif")]
+        $crate::verif::point($tag);
+    };
+}
+
 /// A trait for functional-style method chaining.
 ///
 /// Allows any value to be passed through a function, enabling
